@@ -45,6 +45,12 @@ def body(ch, tag, content):
         buf = f[0:7] + f[7:7 + sz + 1]
         n, chan, obj = frame.unmarshal(buf)
         ok = ok and sz + 8 == len(f) and pc == ch and n == len(buf) and chan == pc and len(buf) == len(f)
+    for n in (131064, 131065, 131072):
+        big = frame.marshal(_body.ContentBody(bytes(n)), ch)
+        t, pc, sz = frame.frame_parts(big[0:7])
+        buf = big[0:7] + big[7:7 + sz + 1]
+        k, chan, obj = frame.unmarshal(buf)
+        ok = ok and sz + 8 == len(big) and pc == ch and k == len(big) and chan == ch
     hb = hx.fix(frame.marshal(heartbeat.Heartbeat(), ch))
     t, pc, sz = frame.frame_parts(hb)
     ok = ok and t == 8 and sz + 8 == len(hb) and frame.unmarshal(hb)[0] == 8
@@ -65,7 +71,7 @@ def partitions(tier, seed):
         name='peek_encoded', params=[('ch', 'int'), ('tag', 'int'), ('content', 'bytes')],
         pre=['0 <= ch <= 65535', '0 <= tag < 2**63', 'len(content) == 3'],
         body=PEEK_BODY, prelude=common.PRELUDE, timeout=120, family='peek_then_read',
-        bound='method, header, body, heartbeat frames with symbolic channel/values',
+        bound='method, header, body (incl. 131064..131072 bytes), heartbeat frames with symbolic channel/values',
         rep={'ch': 40000, 'tag': 2 ** 62, 'content': {'__bytes__': 'ce414d'}}))
     parts.append(Part(
         name='twin_peek_len9', params=[('data', 'bytes')], pre=['len(data) == 9'],
